@@ -6,6 +6,8 @@ pub mod c01;
 pub mod c02;
 pub mod c03;
 pub mod c04;
+pub mod c05;
+pub mod c06;
 pub mod hist;
 
 pub fn dispatch(args: &Args) -> i32 {
@@ -14,6 +16,8 @@ pub fn dispatch(args: &Args) -> i32 {
         "C02" => c02::run(args),
         "C03" => c03::run(args),
         "C04" => c04::run(args),
+        "C05" => c05::run(args),
+        "C06" => c06::run(args),
         "selfcheck" => {
             let ok = crate::vclock::self_check();
             println!("virtual clock self-check: {ok}");
